@@ -20,7 +20,10 @@ RULE = ("inputs: a lone file whose function uses cmake_parse_arguments and the k
 K_TEXT = ("#[[[\n# Keyword function.\n#\n# :param a: first\n# :keyword OPT: an option\n#]]\nfunction(kfun a)\n"
           "  cmake_parse_arguments(K \"\" \"OPT\" \"\" ${ARGN})\nendfunction()\n\nmacro(kmac)\n  cmake_parse_arguments(M \"\" \"\" \"\" ${ARGN})\nendmacro()\n")
 T_TEXT = ("ct_add_test(NAME t_one)\nfunction(${t_one})\n  #[[[\n  # A section.\n  #]]\n  ct_add_section(NAME s_one EXPECTFAIL)\n"
-          "  function(${s_one})\n  endfunction()\nendfunction()\nadd_test(NAME plain COMMAND plain --x)\n")
+          "  function(${s_one})\n  endfunction()\nendfunction()\nadd_test(NAME plain COMMAND plain --x)\n"
+          # declarations without a NAME keyword (whatever they are rendered as, it must not depend on the run's past)
+          "ct_add_test(\"no name given\" EXPECTFAIL)\nfunction(${no_name})\nendfunction()\nadd_test(smoke prog --version)\n"
+          "ct_add_test(EXPECTFAIL)\nmacro(${anon})\nendmacro()\n")
 A_TEXT = ("#[[[ @module\n# Module text of a.\n#]]\n\n#[[[\n# A class.\n#]]\ncpp_class(Widget Base Drawable Clickable Serializable Zed)\n  #[[[\n  # attr doc\n  #]]\n"
           "  cpp_attr(Widget color red)\n  cpp_member(run Widget int args)\n  function(\"${run}\" self n)\n"
           "    cmake_parse_arguments(R \"\" \"\" \"\" ${ARGN})\n  endfunction()\ncpp_end_class()\noption(WITH_X \"help\" ON)\n")
@@ -53,6 +56,8 @@ CLI = ("import sys; sys.path.insert(0, %r); import warnings; warnings.filterwarn
 def cfg_args(cfg, base):
     if cfg == "excl":       # exclusion patterns that match something in several inputs
         return ["-e", "zz.cmake", "-e", "o1.cmake", "-e", "deep/", "-e", "", "-e", "sub/b.cmake", "-e", "dtree/sub2/compat.cmake"]
+    if cfg == "excl2":      # two sibling files and two sibling directories are rejected by one pattern each
+        return ["-e", "*z.cmake", "-e", "sub*/"]
     if cfg == "follow":
         return ["-s", os.path.join(base, "follow.yaml")]
     return ["-s", os.path.join(base, "strip.yaml")] if cfg == "strip" else []
@@ -259,6 +264,8 @@ def _run_rewrite(job, RR):
 
 def deviations(x):
     devs = [("cwd", "inside"), ("cwd", "root"), ("location", "moved/else where/deeper/work"),
+            # directory names above the tree that tools like to skip
+            ("location", ".hidden ws/build/_deps/CMakeFiles/.git/node_modules/tmp/docs/work"),
             ("spelling", "abs"), ("spelling", "dotslash"), ("spelling", "updown"), ("listing", "reversed")]
     if x in ("D", "D2"):
         devs += [("spelling", "slash"), ("spelling", "dot")]
@@ -273,7 +280,8 @@ def run(ctx):
     R2 = reference("4242")
     if R != R2:
         ctx.violation({"kind": "reference"}, compare(R2, R, "reference under hash seed 4242"), cls="bytes hash-seed")
-    R = {"default": R, "strip": reference("0", "strip"), "excl": reference("0", "excl"), "follow": reference("0", "follow")}
+    R = {"default": R, "strip": reference("0", "strip"), "excl": reference("0", "excl"), "follow": reference("0", "follow"),
+         "excl2": reference("0", "excl2")}
     names = [x for x in INPUTS if x != "DS"]
     n = 3 if quick else 4
     hjobs = []
@@ -304,6 +312,8 @@ def run(ctx):
             for d1, d2 in itertools.combinations(ds, 2):
                 if d1[0] != d2[0]:
                     ejobs.append((x, (d1, d2)))
+    # every listing order of D's top directory while two sibling files and two sibling directories are excluded
+    ejobs += [("D", (d, ("settings", "excl2"))) for d in deviations("D") if d[0] == "listing"]
     ctx.sweep(functools.partial(run_env, RR=R), ejobs, space="environment deviations", selftest=3, isolate=False)
     ctx.sweep(functools.partial(run_rewrite, RR=R), ["K", "T"], space="rewrite with an unchanged modification time",
               selftest=0, chunk=1, isolate=False)
@@ -320,7 +330,7 @@ def run(ctx):
 
 def replay(case):
     R = {"default": reference(), "strip": reference("0", "strip"), "excl": reference("0", "excl"),
-         "follow": reference("0", "follow")}
+         "follow": reference("0", "follow"), "excl2": reference("0", "excl2")}
     if isinstance(case, dict) and "rewrite" in case:
         return run_rewrite(case["rewrite"], R)["viol"]
     if isinstance(case, dict):
